@@ -3,6 +3,8 @@ from __future__ import annotations
 
 import io
 import random
+import signal as _signal
+import threading as _threading
 import time
 import warnings
 
@@ -77,6 +79,43 @@ MANIFEST = dict(
          'the search, not a semantic theorem. serialise(file) versus the returned string is searched only.',
 )
 
+# ------------------------------------------------------------------------------------------------ calls into the implementation
+# A fault can make the implementation loop or raise something unexpected: every call into it that depends on generated
+# input runs under an alarm, and both outcomes are turned into results (a failing input), never into a hung or crashed check.
+# A call takes well under a millisecond; the limit is four to five orders of magnitude above that, so load cannot trip it.
+IMPL_TIME_LIMIT = 30.0
+HANGS = [0]       # calls that hit the limit (shrinking stops at the first one: every further probe would cost the limit again)
+
+
+_MAIN_THREAD = _threading.main_thread()
+
+
+class ImplTimeout(BaseException):
+    """Raised by the alarm inside a call into the implementation (BaseException: `except Exception` cannot swallow it)."""
+
+
+def _on_alarm(signum, frame):
+    HANGS[0] += 1
+    raise ImplTimeout()
+
+
+_ARMED = [False]
+
+
+def guarded(fn, *a, **kw):
+    """fn(*a, **kw) under the alarm (main thread only; the handler is installed once, a call costs two setitimer calls)."""
+    if _threading.current_thread() is not _MAIN_THREAD:
+        return fn(*a, **kw)
+    if not _ARMED[0]:
+        _signal.signal(_signal.SIGALRM, _on_alarm)
+        _ARMED[0] = True
+    _signal.setitimer(_signal.ITIMER_REAL, IMPL_TIME_LIMIT)
+    try:
+        return fn(*a, **kw)
+    finally:
+        _signal.setitimer(_signal.ITIMER_REAL, 0)
+
+
 IMPORTS = ['Coq.Lists.List', 'Coq.NArith.NArith', 'Coq.Bool.Bool', 'SV.KV.KvBase', 'SV.KV.KvLex', 'SV.KV.KvParse',
            'SV.KV.KvSer', 'SV.KV.KvSym', 'SV.KV.KvExport', 'SV.KV.KvEnum', 'SV.KV.KvFlags', 'SV.Gen.KVSer_gen']
 IMPORTS_LOOP = ['Coq.Lists.List', 'Coq.NArith.NArith', 'Coq.Bool.Bool', 'SV.KV.KvBase', 'SV.KV.KvLex', 'SV.KV.KvParse',
@@ -130,7 +169,8 @@ ERR_NAMES = {1: 'flag-newline', 2: 'flag-nest', 3: 'flag-eof', 4: 'paren-nest', 
              7: 'close-paren', 8: 'star-comment', 9: 'single-slash', 10: 'no-escape-char', 11: 'unterminated-string',
              12: 'unexpected-char', 20: 'block-after-value', 21: 'block-required', 22: 'newline-in-key',
              23: 'expected-newline', 24: 'multiple-names', 25: 'too-many-close', 26: 'unexpected-token',
-             27: 'eof-block-required', 28: 'eof-open-blocks', 29: 'index-error', 30: 'newline-in-value', 99: 'other'}
+             27: 'eof-block-required', 28: 'eof-open-blocks', 29: 'index-error', 30: 'newline-in-value',
+             97: 'unexpected-exception', 98: 'hang', 99: 'other'}
 
 # Keyvalues.parse options covered by the model, as bits of the number handed to Coq (mkopts in PRE)
 OPT_NAMES = ['newline_keys', 'newline_values', 'single_line', 'single_block']
@@ -275,7 +315,7 @@ def impl_parse(data, flag_log: dict | None = None, popts: dict | None = None, fl
             kw = dict(popts or {})
             if flags is not None:
                 kw['flags'] = flags
-            root = kvmod.Keyvalues.parse(data, **kw)
+            root = guarded(kvmod.Keyvalues.parse, data, **kw)
             if root._real_name is not None:
                 return ('node', snapshot(root))
             return ('ok', snapshot(root)[2])
@@ -286,6 +326,10 @@ def impl_parse(data, flag_log: dict | None = None, popts: dict | None = None, fl
         return ('err', 99, e.mess[:80])
     except IndexError as e:
         return ('err', 29, f'IndexError: {e}')
+    except ImplTimeout:
+        return ('err', 98, f'no result after {IMPL_TIME_LIMIT:.0f} s')
+    except Exception as e:      # noqa: BLE001   anything else a fault makes parse raise is a result, not a crash of the check
+        return ('err', 97, f'{type(e).__name__}: {e}'[:80])
     finally:
         kvmod._read_flag = orig
 
@@ -297,11 +341,30 @@ OPTS_ODD = [dict(indent='x', indent_braces=True, start_indent=''), dict(indent='
             dict(indent='\t', indent_braces=True, start_indent='{'), dict(indent='\r', indent_braces=False, start_indent='')]
 
 
-def impl_serialise(doc, opts, named: bool = False) -> str:
-    with warnings.catch_warnings():
-        warnings.simplefilter('ignore')
-        kv = build(doc[0]) if named else build_root(doc)
-        return kv.serialise(**opts)
+def write_text(kv, opts: dict, writer: str = 'serialise'):
+    """(text, '') or (None, how the writer failed): serialise(**opts) / ''.join(export()) under the alarm."""
+    try:
+        with warnings.catch_warnings():
+            warnings.simplefilter('ignore')
+            if writer == 'serialise':
+                text = guarded(kv.serialise, **opts)
+            else:
+                text = guarded(lambda: ''.join(kv.export()))
+    except ImplTimeout:
+        return None, 'hang'
+    except Exception as e:      # noqa: BLE001   the writers must not raise on legal trees
+        return None, type(e).__name__
+    if not isinstance(text, str):
+        return None, 'returned-' + type(text).__name__
+    return text, ''
+
+
+def impl_serialise(doc, opts, named: bool = False, writer: str = 'serialise') -> str:
+    """The text, or a marker no model text can equal when the writer failed (the correspondence then disagrees and the
+    search reports the failing input)."""
+    kv = build(doc[0]) if named else build_root(doc)
+    text, err = write_text(kv, opts, writer)
+    return text if text is not None else '\x00\x00writer failed: ' + err
 
 
 # ------------------------------------------------------------------------------------------------ parallel model evaluation
@@ -329,9 +392,7 @@ def corr_serialise(ck: Ck):
         if named:
             doc = doc[:1]
         text = impl_serialise(doc, opts, named)
-        with warnings.catch_warnings():
-            warnings.simplefilter('ignore')
-            xtext = ''.join((build(doc[0]) if named else build_root(doc)).export())
+        xtext = impl_serialise(doc, {}, named, 'export')
         cases.append((doc, opts, named, text, xtext))
         ck.count('serialise_correspondence_cases')
         nodes, depth, special = tree_stats(doc)
@@ -927,7 +988,11 @@ def tie_tables(ck: Ck, side: dict) -> None:
     for cp in list(range(hi)) + [0xd800, 0xdfff, 0xfeff, 0x1f600, 0x10ffff]:
         c = chr(cp)
         want = c if (c in excl or c not in inv) else '\\' + inv[c]
-        if tokenizer.escape_text(c) != want:
+        try:
+            got = tokenizer.escape_text(c)
+        except Exception:       # noqa: BLE001
+            got = None
+        if got != want:
             bad.append(cp)
     ck.count('escape_text_single_chars', hi + 5)
     ck.obligation('tie:escape_text on every single character equals the table model', not bad,
@@ -963,9 +1028,13 @@ def strip_blanks_outside_quotes(text: str) -> str:
 def tokens_of(text: str):
     from srctools.tokenizer import Tokenizer, TokenSyntaxError
     try:
-        return [(t.name, v) for t, v in Tokenizer(text, string_bracket=True)]
+        return guarded(lambda: [(t.name, v) for t, v in Tokenizer(text, string_bracket=True)])
     except TokenSyntaxError as e:
         return ('error', e.mess[:60])
+    except ImplTimeout:
+        return ('error', 'hang')
+    except Exception as e:      # noqa: BLE001
+        return ('error', type(e).__name__)
 
 
 def chunkings(rng: random.Random, text: str):
@@ -1069,13 +1138,9 @@ def fail_key(kind: str, small, cls: str) -> str:
 
 def roundtrip_fails(doc, opts, writer: str = 'serialise'):
     """'' if parse(write(doc)) == doc, else a description class."""
-    try:
-        with warnings.catch_warnings():
-            warnings.simplefilter('ignore')
-            root = build_root(doc)
-            text = root.serialise(**opts) if writer == 'serialise' else ''.join(root.export())
-    except Exception as e:     # the writers must not raise on legal trees
-        return f'writer-raised:{type(e).__name__}'
+    text, err = write_text(build_root(doc), opts, writer)
+    if text is None:
+        return f'writer-raised:{err}'
     got = impl_parse(text)
     if got[0] == 'ok':
         return where_differs(doc, got[1])
@@ -1100,12 +1165,17 @@ def shrink_doc(doc, pred):
                 for k in range(len(t[2])):
                     yield d[:i] + [('L', t[1], t[2][:k] + t[2][k + 1:])] + d[i + 1:]
     cur = doc
+    hangs = HANGS[0]
     for _ in range(400):
         for v in variants(cur):
             if pred(v):
                 cur = v
                 break
+            if HANGS[0] != hangs:
+                return cur
         else:
+            return cur
+        if HANGS[0] != hangs:
             return cur
     return cur
 
@@ -1126,9 +1196,9 @@ def options_expected(doc, po: dict):
 
 
 def options_fails(doc, po: dict, sopts: dict) -> str:
-    with warnings.catch_warnings():
-        warnings.simplefilter('ignore')
-        text = build_root(doc).serialise(**sopts)
+    text, err = write_text(build_root(doc), sopts)
+    if text is None:
+        return f'writer-raised:{err}'
     got = impl_parse(text, None, po)
     want = options_expected(doc, po)
     if got == want:
@@ -1196,16 +1266,24 @@ def search(ck: Ck) -> None:
             mutated = False
             for opts in opt_list:
                 ck.count('search_serialisations')
-                text = root.serialise(**opts)
-                buf = io.StringIO()
-                if root.serialise(buf, **opts) is not None or buf.getvalue() != text:
-                    report('serialise-to-file-differs', 'serialise(file) writes a different text than serialise()', doc, opts)
+                text, werr = write_text(root, opts)
+                if text is not None:
+                    buf = io.StringIO()
+                    try:
+                        to_file = guarded(root.serialise, buf, **opts)
+                    except (ImplTimeout, Exception):       # noqa: BLE001
+                        to_file = 'raised'
+                    if to_file is not None or buf.getvalue() != text:
+                        report('serialise-to-file-differs', 'serialise(file) writes a different text than serialise()', doc, opts)
                 if identity_walk(root) != before or snapshot(root)[2] != doc:
                     report('serialise-mutates-tree', 'the tree differs after serialise()', doc, opts)
                     mutated = True
                     break       # a writer that edits the tree can make every further call more expensive
-                got = impl_parse(text)
-                diff = where_differs(doc, got[1] if got[0] == 'ok' else got)
+                if text is None:
+                    diff = 'writer-raised:' + werr
+                else:
+                    got = impl_parse(text)
+                    diff = where_differs(doc, got[1] if got[0] == 'ok' else got)
                 if diff:
                     if not may_shrink('roundtrip', doc):
                         continue
@@ -1225,7 +1303,9 @@ def search(ck: Ck) -> None:
                 continue
             # delivery forms, on one option set per tree
             opts = opt_list[i % len(opt_list)]
-            text = root.serialise(**opts)
+            text, werr = write_text(root, opts)
+            if text is None:
+                continue        # reported above as writer-raised
             base = impl_parse(text)
             deliveries = list(chunkings(rng, text))
             deliveries.append(('StringIO', io.StringIO(text)))
@@ -1244,12 +1324,16 @@ def search(ck: Ck) -> None:
             if doc:
                 kv = build(doc[0])
                 o2 = rng.choice(OPTS_WS)
-                got = impl_parse(kv.serialise(**o2))
+                ntext, nerr = write_text(kv, o2)
+                got = impl_parse(ntext) if ntext is not None else ('err', 97, 'writer failed: ' + nerr)
                 if got != ('ok', [doc[0]]) and may_shrink('roundtrip-named-node', doc):
                     def named_fails(d, o=o2):
                         if len(d) != 1:
                             return ''
-                        g = impl_parse(build(d[0]).serialise(**o))
+                        t_, e_ = write_text(build(d[0]), o)
+                        if t_ is None:
+                            return 'writer-raised:' + e_
+                        g = impl_parse(t_)
                         return where_differs(d, g[1] if g[0] == 'ok' else g)
                     small = shrink_doc(doc[:1], lambda d: bool(named_fails(d)))
                     cls = named_fails(small)
@@ -1292,6 +1376,37 @@ def search(ck: Ck) -> None:
         ck.violation(key, what, {'doc': doc, 'opts': opts, 'extra': extra,
                                  'how': 'checks.c01.replay: build the tree, serialise with opts, Keyvalues.parse, compare'})
     ck.extra['search_violation_keys'] = sorted(found)
+
+
+# ------------------------------------------------------------------------------------------------ Print Assumptions, in parallel
+def theorems_parallel(rec: Ck, props_file: str, ways: int = 3) -> None:
+    """What Ck.theorems does (one `theorem:<name>` obligation per statement of the Props file, with the output of Print
+    Assumptions), with the statements dealt over `ways` coqc processes: one process needs 20-35 s for the 50 statements on a
+    loaded machine.  The obligations are recorded in the order of the file."""
+    import re as _re
+    from concurrent.futures import ThreadPoolExecutor
+    from harness.common import ROCQ, _split_assumptions
+    txt = (ROCQ / props_file).read_text()
+    names = _re.findall(r"^\s*(?:Theorem|Lemma|Corollary)\s+([A-Za-z0-9_']+)", txt, _re.M)
+    mod = 'SV.' + props_file[:-2].replace('/', '.')
+    groups = [names[k::ways] for k in range(ways)]
+
+    def one(k: int):
+        body = f'Require Import {mod}.\n' + ''.join(f'Print Assumptions {n}.\n' for n in groups[k])
+        return rec.coq_scratch(body, f'assumptions{k}')
+    with ThreadPoolExecutor(max_workers=ways) as ex:
+        outs = list(ex.map(one, range(ways)))
+    got: dict = {}
+    for k, (rc, out) in enumerate(outs):
+        if rc != 0:
+            rec.obligation(f'assumptions:{props_file}', False, out[-2000:])
+            rec.tie_broken.append(f'Print Assumptions failed for {props_file}')
+            return
+        for n, b in zip(groups[k], _split_assumptions(out, len(groups[k]))):
+            got[n] = b
+    for n in names:
+        rec.axioms[n] = got[n]
+        rec.obligation(f'theorem:{n}', True, 'Qed; axioms: ' + ('none (closed under the global context)' if not got[n] else ', '.join(got[n])))
 
 
 # ------------------------------------------------------------------------------------------------ main
@@ -1345,11 +1460,29 @@ def run(ck: Ck) -> None:
         import threading
         rec = Ck(ck.pid, ck.tier, ck.seed)
         at_theorems = len(ck.obligations)
-        th = threading.Thread(target=rec.theorems, args=('Props/C01.v',))
+        th = threading.Thread(target=theorems_parallel, args=(rec, 'Props/C01.v'))
         th.start()
         noraw = '(fun t => forallb (fun p => match p with PRaw _ | POther => false | _ => true end) t)'
         is_push = '(fun s => match s with SOpenLast | SOpenDummy => true | _ => false end)'
         is_pop = '(fun s => match s with SPop => true | _ => false end)'
+        # the obligations that need the C03 tokenizer tables run in a coqc process of their own, beside the main group
+        # (a recorder of its own again; spliced in after the main group, so the order of the evidence is fixed)
+        rec2 = Ck(ck.pid, ck.tier, ck.seed)
+        inst2: dict = {}
+        th2 = None
+        if ok_esc:
+            th2 = threading.Thread(target=lambda: inst2.update(rec2.instance_obligations(
+                IMPORTS_REFINE + ['SV.KV.KvSym', 'SV.KV.KvLoop', 'SV.KV.KvLoopRoundtrip', 'SV.Gen.KVLoop_gen'] + IMPORTS_AUX, {
+            'tokenizer_model_escape_table_equals_kv_lexer_table': 'esc_tables_match gen_tables gen_escfg',
+            'tokenizer_model_BARE_DISALLOWED_equals_kv_lexer_set': 'bare_tables_match gen_tables',
+            'tokenizer_model_operators_are_brace_open_close_equals_comma': 'ops_match (Str.operators gen_tables)',
+            'tables_match(premise of parse_any_delivery)': 'tables_match gen_tables gen_escfg',
+            'all_nine_hypotheses_of_c01_property_hold_of_the_regenerated_objects':
+                'cfg_ok gen_sercfg && esc_ok gen_escfg && pcfg_ok gen_parsecfg && loop_ok gen_ptree gen_pfinal gen_parsecfg && '
+                'tables_match gen_tables gen_escfg && delivery_ok gen_serpaths && flagprog_ok gen_flagprog && '
+                'wprog_pure gen_wprog && wprog_text_ok gen_sercfg gen_wprog',
+          }, name='inst_refine')))
+            th2.start()
         inst = ck.instance_obligations(IMPORTS + [i for i in IMPORTS_LOOP if i not in IMPORTS] + IMPORTS_AUX, {
             'escape_table_covers_quote': 'esc_quote_ok gen_escfg',
             'escape_table_covers_backslash': 'esc_backslash_ok gen_escfg',
@@ -1411,17 +1544,13 @@ def run(ck: Ck) -> None:
             f'parse_loop_tree_runs_like_token_loop_model_on_all_token_strings_up_to_length_{ck.budget(3, 4)}':
                 f'tree_agrees_upto gen_ptree gen_pfinal gen_parsecfg {ck.budget(3, 4)}',
         })
-        if ok_esc:
-          inst.update(ck.instance_obligations(IMPORTS_REFINE + ['SV.KV.KvSym', 'SV.KV.KvLoop', 'SV.KV.KvLoopRoundtrip', 'SV.Gen.KVLoop_gen'] + IMPORTS_AUX, {
-            'tokenizer_model_escape_table_equals_kv_lexer_table': 'esc_tables_match gen_tables gen_escfg',
-            'tokenizer_model_BARE_DISALLOWED_equals_kv_lexer_set': 'bare_tables_match gen_tables',
-            'tokenizer_model_operators_are_brace_open_close_equals_comma': 'ops_match (Str.operators gen_tables)',
-            'tables_match(premise of parse_any_delivery)': 'tables_match gen_tables gen_escfg',
-            'all_nine_hypotheses_of_c01_property_hold_of_the_regenerated_objects':
-                'cfg_ok gen_sercfg && esc_ok gen_escfg && pcfg_ok gen_parsecfg && loop_ok gen_ptree gen_pfinal gen_parsecfg && '
-                'tables_match gen_tables gen_escfg && delivery_ok gen_serpaths && flagprog_ok gen_flagprog && '
-                'wprog_pure gen_wprog && wprog_text_ok gen_sercfg gen_wprog',
-          }, name='inst_refine'))
+        if th2 is not None:
+            th2.join()
+            ck.obligations.extend(rec2.obligations)
+            ck.tie_broken.extend(rec2.tie_broken)
+            ck.notes.extend(rec2.notes)
+            inst.update(inst2)
+            shutil.rmtree(rec2.scratch, ignore_errors=True)
         if not all(inst.values()):
             ck.tie_broken.append('instance obligations over Gen/KVSer_gen.v / Gen/KVLoop_gen.v: ' + ', '.join(k for k, v in inst.items() if not v))
         stage['build+theorems+instances'] = round(time.time() - t_stage, 1)
@@ -1429,13 +1558,19 @@ def run(ck: Ck) -> None:
         tie_tables(ck, side)
         # the correspondences: cases are generated sequentially (ck.rng), the model is evaluated on all chunks in
         # parallel coqc processes, results are consumed in order
+        t_sub = time.time()
         pending = [corr_serialise(ck), corr_parse(ck), corr_read_flag(ck, bool(side.get('read_flag_shape_recognised')))]
+        stage['  of which: generating the correspondence cases (implementation runs)'] = round(time.time() - t_sub, 1)
+        t_sub = time.time()
         results = eval_jobs(ck, [j for jobs, _ in pending for j in jobs])
+        stage['  of which: model evaluation (parallel coqc)'] = round(time.time() - t_sub, 1)
+        t_sub = time.time()
         at = 0
         for jobs, fin in pending:
             fin(results[at:at + len(jobs)])
             at += len(jobs)
         th.join()
+        stage['  of which: waiting for Print Assumptions'] = round(time.time() - t_sub, 1)
         ck.obligations[at_theorems:at_theorems] = rec.obligations
         ck.axioms.update(rec.axioms)
         ck.tie_broken.extend(rec.tie_broken)
